@@ -381,7 +381,7 @@ func drawProgram(t *rapid.T) program {
 }
 
 func TestRandomSchedules(t *testing.T) {
-	hx.Check(t, hx.N{Quick: 5000, Thorough: 50000}, func(t *rapid.T, c *hx.Case) {
+	hx.Check(t, hx.N{Quick: 25000, Thorough: 400000}, func(t *rapid.T, c *hx.Case) {
 		p := drawProgram(t)
 		c.Op("program %+v", p)
 		verdict := execute(c, p,
